@@ -308,6 +308,11 @@ class Implements(NameAndModuleComparisonMixin,
     # class whose specification should be used as additional base
     inherit = None
 
+    # The class this is the specification of, when ``inherit`` was
+    # cleared by one of the *only* forms. (Only used as the pickle
+    # reference then, never for inheriting.)
+    _only_for = None
+
     # interfaces actually declared for a class
     declared = ()
 
@@ -352,7 +357,10 @@ class Implements(NameAndModuleComparisonMixin,
         return f'classImplements({name}{declared_names})'
 
     def __reduce__(self):
-        return implementedBy, (self.inherit, )
+        inherit = self.inherit
+        if inherit is None:
+            inherit = self._only_for
+        return implementedBy, (inherit, )
 
 
 def _implements_name(ob):
@@ -532,6 +540,7 @@ def classImplementsOnly(cls, *interfaces):
     # about to get rid of.
     spec.declared = ()
     spec.inherit = None
+    spec._only_for = cls
     spec.__bases__ = ()
     _classImplements_ordered(spec, interfaces, ())
 
